@@ -452,7 +452,6 @@ theorem lowRecvB_ptrAssignEmb (st : St) (tid d c v : Nat) (ht : tid < nThreads) 
 def idxOkN : NOp → Prop
   | .flat op => idxOk op ∧ ∀ d s, op ≠ .pLink d s
   | .vPushV d s | .xAddC d s | .vGetV d s _ | .xGetC d s _ | .aPushV d s | .aGetV d s _ => d < nVars ∧ s < nVars
-  | .sCap d _ | .sLitU d _ | .sConst d | .sEditTo d _ | .boxCtor d _ _ => d < nVars
 
 theorem lowRecv_lists (tid : Nat) (op : NOp) (ht : tid < nThreads) (hi : idxOkN op) :
     (∀ st, LowRecv (preN st tid op)) ∧ (∀ s1, LowRecv (postN s1 tid op)) := by
@@ -469,25 +468,6 @@ theorem lowRecv_lists (tid : Nat) (op : NOp) (ht : tid < nThreads) (hi : idxOkN 
     simp only [preN]; split <;> simp [lowRecvB_cons, lowRecvB_nil, recv, lowV hi.1]
   | aGetV d s k => exact ⟨fun st => lowRecv_of_B (lowRecvB_getEmb _ _ _ _ _ _ _ ht hi.1), fun s1 => lowRecv_of_B rfl⟩
   | xGetC d s k => exact ⟨fun st => lowRecv_of_B (lowRecvB_getEmb _ _ _ _ _ _ _ ht hi.1), fun s1 => lowRecv_of_B rfl⟩
-  | sCap d n =>
-    refine ⟨fun st => lowRecv_of_B ?_, fun s1 => lowRecv_of_B rfl⟩
-    simp [preN, rel, lowRecvB_cons, lowRecvB_nil, recv, lowV hi]
-  | sLitU d bytes =>
-    refine ⟨fun st => lowRecv_of_B ?_, fun s1 => lowRecv_of_B rfl⟩
-    simp [preN, rel, lowRecvB_cons, lowRecvB_nil, recv, lowV hi]
-  | boxCtor d tag val =>
-    refine ⟨fun st => lowRecv_of_B ?_, fun s1 => lowRecv_of_B rfl⟩
-    simp [preN, rel, lowRecvB_cons, lowRecvB_nil, recv, lowV hi]
-  | sEditTo d nv =>
-    refine ⟨fun st => lowRecv_of_B ?_, fun s1 => lowRecv_of_B ?_⟩
-    · simp [preN, lowRecvB_cons, lowRecvB_nil, recv]
-    · simp only [postN]
-      (repeat' split) <;> simp [cloneAllocFirst, lowRecvB_cons, lowRecvB_nil, recv, lowT ht, lowV hi]
-  | sConst d =>
-    refine ⟨fun st => lowRecv_of_B ?_, fun s1 => lowRecv_of_B ?_⟩
-    · simp only [preN]; split <;> simp [lowRecvB_cons, lowRecvB_nil, recv]
-    · simp only [postN]
-      (repeat' split) <;> simp [cloneAllocFirst, lowRecvB_cons, lowRecvB_nil, recv, lowT ht, lowV hi]
   | flat op =>
     obtain ⟨hi, hnl⟩ := hi
     cases hf : flatOp op with
